@@ -271,6 +271,9 @@ func runCase(c *verdict.Ctx, dir string, idx int, verbose bool) {
 		c.Inconclusive("child died: " + site)
 		fmt.Fprintf(os.Stderr, "C14 case %d: child died (%s)\n%s\n", idx, site, tail)
 	}
+	for _, u := range j.undecided {
+		c.Inconclusive(u)
+	}
 	if j.overflow {
 		c.Inconclusive("chunk queue model: too many interleavings to enumerate")
 	}
@@ -279,7 +282,11 @@ func runCase(c *verdict.Ctx, dir string, idx int, verbose bool) {
 	}
 	c.Count("outcome: "+j.outcome, 1)
 	for k, v := range j.counts {
-		c.Count(k, v)
+		if strings.HasPrefix(k, "max ") {
+			c.Max(k, v)
+		} else {
+			c.Count(k, v)
+		}
 	}
 	c.Count("chunk-model apply calls checked", int64(j.modelEvents))
 	c.Max("chunk-model max simultaneous states", int64(j.maxStates))
